@@ -537,7 +537,11 @@ class PathEnum:
                     env[d["l"]] = res
                     consts.pop(d["l"], None)
                     discr_src.pop(d["l"], None)
-                if t.get("target") is None:
+                # `Err(e).unwrap()` / `None.unwrap()`: re-raising an error the way the unwrap it
+                # replaces did - the call never returns
+                certain_panic = bool(args) and args[0][0] == "agg" and (
+                    (site.ck in UNWRAP_OK and args[0][1].endswith("Result::Err")) or (site.ck in UNWRAP_SOME and args[0][1].endswith("Option::None")))
+                if t.get("target") is None or certain_panic:
                     path.decisions = decisions
                     path.end = "diverge"
                     path.env = env
